@@ -322,3 +322,73 @@ func rowCondLeaves(v ssa.Value) []ssa.Value {
 	}
 	return out
 }
+
+// funcTableOf: v is an entry of a package-level map of functions that is written only where it is declared
+// (`taskFields["src_name"]`, or `field, ok := taskFields[name]`): the functions it can be, by key. key/isConst
+// say which one when the look-up uses a constant.
+func funcTableOf(v ssa.Value) (entries map[string]*ssa.Function, key string, isConst, ok bool) {
+	v = stripConv(v)
+	if e, isE := v.(*ssa.Extract); isE && e.Index == 0 {
+		v = e.Tuple
+	}
+	lk, isLk := v.(*ssa.Lookup)
+	if !isLk {
+		return nil, "", false, false
+	}
+	mt, isMap := lk.X.Type().Underlying().(*types.Map)
+	if !isMap {
+		return nil, "", false, false
+	}
+	if _, isSig := mt.Elem().Underlying().(*types.Signature); !isSig {
+		return nil, "", false, false
+	}
+	u, isU := lk.X.(*ssa.UnOp)
+	if !isU || u.Op != token.MUL {
+		return nil, "", false, false
+	}
+	g, isG := u.X.(*ssa.Global)
+	if !isG || g.Pkg == nil || currentWorld == nil || !currentWorld.globalStoredOnlyInInit(g) {
+		return nil, "", false, false
+	}
+	init := g.Pkg.Func("init")
+	if init == nil {
+		return nil, "", false, false
+	}
+	var mk ssa.Value
+	n := 0
+	allInstrs(init, func(in ssa.Instruction) {
+		if st, isSt := in.(*ssa.Store); isSt && st.Addr == ssa.Value(g) {
+			mk = st.Val
+			n++
+		}
+	})
+	if mk == nil || n != 1 {
+		return nil, "", false, false
+	}
+	entries = map[string]*ssa.Function{}
+	good := true
+	allInstrs(init, func(in ssa.Instruction) {
+		mu, isMU := in.(*ssa.MapUpdate)
+		if !isMU || mu.Map != mk {
+			return
+		}
+		k, isK := constString(mu.Key)
+		var f *ssa.Function
+		switch x := stripConv(mu.Value).(type) {
+		case *ssa.Function:
+			f = x
+		case *ssa.MakeClosure:
+			f, _ = x.Fn.(*ssa.Function)
+		}
+		if !isK || f == nil {
+			good = false
+			return
+		}
+		entries[k] = f
+	})
+	if !good || len(entries) == 0 {
+		return nil, "", false, false
+	}
+	key, isConst = constString(lk.Index)
+	return entries, key, isConst, true
+}
